@@ -190,6 +190,12 @@ def gen_pair(rng):
             lit = Literal(str(b.skolemize()), datatype=rng.choice([None, URIRef("http://www.w3.org/2001/XMLSchema#anyURI")]))
             extra = (URIRef("urn:x"), P[1], lit)
             G = set(G) | {extra}; H = list(H) + [extra]
+    if rng.random() < 0.15:
+        # blank node identifiers that share a prefix up to a '#', '?', ';' or '/' (skolem IRIs are built from the identifier)
+        bs = sorted({x for t in G for x in t if isinstance(x, BNode)}, key=str)
+        sep = rng.choice(["#", "?", ";", "/", "%23"])
+        ren = {b: BNode("item%s%d" % (sep, i)) for i, b in enumerate(bs)}
+        G = {tuple(ren.get(x, x) for x in t) for t in G}
     G = sorted(G, key=str)
     return dict(kind="pair", fam=fam, mode=mode, g=[enc_t(t) for t in G], h=[enc_t(t) for t in H])
 
